@@ -35,7 +35,11 @@ JudgeMatrix(c) ==
       legal == \A i \in 1..Len(c.ones) : c.ones[i][2] \in {Succ(N, c.ones[i][1], j) : j \in 0..3}
   IN IF legal THEN (IF c.outcome = "ok" THEN "ok" ELSE "violation:legal-matrix-rejected")
      ELSE (IF c.outcome = "ValueError" THEN "ok" ELSE "violation:illegal-matrix-accepted")
-Judge(c) == IF c.kind = "graph" THEN JudgeGraph(c) ELSE JudgeMatrix(c)
+\* kind "args": recorded outcomes of calls with questionable arguments (conformance tier)
+JudgeArgs(c) ==
+  IF c.fn = "leaf" THEN (IF c.outcome = LeafArgsOutcome(c.has_acc, c.has_lm) THEN "ok" ELSE "conformance:leaf-query-arguments")
+  ELSE (IF c.outcome = MatrixArgsOutcome(c.nrows, c.ncols, c.min, c.max, c.maxlen) THEN "ok" ELSE "conformance:matrix-arguments")
+Judge(c) == IF c.kind = "graph" THEN JudgeGraph(c) ELSE IF c.kind = "args" THEN JudgeArgs(c) ELSE JudgeMatrix(c)
 Check == /\ verdict = "pending" /\ verdict' = Judge(Cases[cid])
          /\ PrintT(ToJson([cid |-> cid, verdict |-> verdict'])) /\ UNCHANGED cid
 Next == Check
